@@ -12,6 +12,7 @@ import (
 	"sort"
 	"strconv"
 	"strings"
+	"time"
 
 	"golang.org/x/tools/go/ssa"
 )
@@ -69,7 +70,24 @@ func init() {
 		"time.now":         extTimeNow,
 		"time.runtimeNano": extRuntimeNano,
 		"time.Sleep":       func(m *Machine, fr *frame, a []value) value { return nil },
-		"runtime.GOROOT":   func(m *Machine, fr *frame, a []value) value { return "/goroot" },
+		// rendering of instants is only ever used for logging here; calendar arithmetic on a
+		// symbolic instant would fork thousands of ways
+		"(time.Time).String": func(m *Machine, fr *frame, a []value) value {
+			m.note("time.Time.String rendered as a placeholder")
+			return "<time>"
+		},
+		"(time.Time).Format": func(m *Machine, fr *frame, a []value) value {
+			m.note("time.Time.Format rendered as a placeholder")
+			return "<time>"
+		},
+		"(time.Time).GoString": func(m *Machine, fr *frame, a []value) value { return "<time>" },
+		"(time.Duration).String": func(m *Machine, fr *frame, a []value) value {
+			if d, ok := a[0].(int64); ok {
+				return time.Duration(d).String()
+			}
+			return "<duration>"
+		},
+		"runtime.GOROOT": func(m *Machine, fr *frame, a []value) value { return "/goroot" },
 
 		// strings / bytes kernels
 		"internal/bytealg.IndexByteString": extIndexByteString,
@@ -110,9 +128,9 @@ func init() {
 		"math/bits.TrailingZeros": func(m *Machine, fr *frame, a []value) value { return bits.TrailingZeros(a[0].(uint)) },
 
 		// formatting
-		"fmt.Sprintf": extSprintf,
-		"fmt.Errorf":  extErrorf,
-		"fmt.Sprint":  extSprint,
+		"fmt.Sprintf":  extSprintf,
+		"fmt.Errorf":   extErrorf,
+		"fmt.Sprint":   extSprint,
 		"fmt.Sprintln": extSprint,
 
 		// sorting
@@ -379,6 +397,11 @@ func (m *Machine) monoNow() *Term {
 func extTimeNow(m *Machine, fr *frame, args []value) value {
 	ts := m.ts
 	mono := m.monoNow()
+	// all readings taken at one monotonic instant see the same wall clock; between instants the
+	// wall clock is arbitrary (it may jump either way)
+	if w, ok := m.wallAt[mono.id]; ok {
+		return tuple{w[0], w[1], &Sym{mono}}
+	}
 	// narrow variables keep the abstract domain (known bits / ranges) informative
 	sec := m.newInput("clk.sec", "int", BV(31), 31, false)
 	m.seed(sec, 1577836800)
@@ -386,7 +409,9 @@ func extTimeNow(m *Machine, fr *frame, args []value) value {
 	m.assume(ts.BVCmp("bvult", sec, ts.BVConst(2000000000, 31)))
 	nsec := m.newInput("clk.nsec", "int", BV(30), 30, false)
 	m.assume(ts.BVCmp("bvult", nsec, ts.BVConst(1000000000, 30)))
-	return tuple{&Sym{ts.ZExt(sec, 64)}, &Sym{ts.ZExt(nsec, 32)}, &Sym{mono}}
+	w := [2]value{&Sym{ts.ZExt(sec, 64)}, &Sym{ts.ZExt(nsec, 32)}}
+	m.wallAt[mono.id] = w
+	return tuple{w[0], w[1], &Sym{mono}}
 }
 
 func extRuntimeNano(m *Machine, fr *frame, args []value) value {
